@@ -28,6 +28,7 @@ import Gzx.Driver.C18
 import Gzx.Driver.C18Gen
 import Gzx.Driver.C19
 import Gzx.Driver.C20
+import Gzx.Driver.ImagePath2D
 namespace Gzx.Driver
 
 /-- `<suite> <cmd> <args...>`; one handler module per property, each owned by that property -/
@@ -63,6 +64,7 @@ def dispatch (line : String) : String :=
   | "c18g" :: rest => C18Gen.handle rest
   | "c19" :: rest => C19.handle rest
   | "c20" :: rest => C20.handle rest
+  | "img2d" :: rest => ImagePath2D.handle rest
   | _ => "bad-suite"
 
 end Gzx.Driver
